@@ -285,6 +285,13 @@ func hGenDefinition(nd int, withReqs bool, reqs, shapes, nest, malformed int) Pr
 		def.InputDescriptors = append(def.InputDescriptors, d)
 	}
 	if withReqs {
+		if nd >= 3 {
+			// the largest descriptor count is combined with the first shapes3 rule shapes only (and no malformed sources)
+			if s3 := vParam("shapes3", 2); shapes > s3 {
+				shapes = s3
+			}
+			malformed = 0
+		}
 		for i, k := 0, vLen(1, reqs); i < k; i++ {
 			def.SubmissionRequirements = append(def.SubmissionRequirements, hGenRequirement("r"+string(rune('0'+i)), shapes, nest, malformed))
 		}
